@@ -40,7 +40,9 @@ def run(tier: str) -> int:
                                         bound=2, per_level=(1, 24, 12, 3), nrandom=4, procs=8)
     else:
         total, distinct = ec.conc_check(ck, scs, tier, "EventLoopTrace", ec.EL_TRACE_CONSTS, ec.EL_INVS, "evloop-conc",
-                                        bound=3, per_level=(1, 400, 500, 300, 100), nrandom=200, procs=8)
+                                        bound=3, per_level=(1, 250, 300, 150, 50), nrandom=120, procs=8)
+    if not quick:
+        ec.impl_trace_check(ck, ck.rows)
     res, consts = design.result()
     ck.add_tlc(res, "design: all interleavings of the abstract object (client symmetry) " + str(consts))
     ck.note("design_coverage", ec.require_coverage(res, ec.EL_ACTIONS, "EventLoop design run"))
